@@ -69,3 +69,25 @@ fn c07_load_activates_the_callers_tags() {
         assert!(blocked(&consumer, "https://imp.example/x"), "optimize={optimize}: tagged $important rule must apply after the load");
     }
 }
+
+/// OBL C07.witness.tag_names_verbatim
+#[test]
+fn c07_tag_names_are_compared_verbatim() {
+    // active(rule) == (tag(rule) in current_set): the tag of the rule is the text written in the rule
+    for optimize in [false, true] {
+        let mut e = Engine::from_rules_parametrised(["||s.example^$tag=Social-Embeds", "@@||s.example/ok^$tag=OK_Tag", "||c.example^$csp=script-src 'none',tag=CSP"], ParseOptions::default(), true, optimize);
+        let r = req("https://s.example/w.js");
+        assert!(!e.check_network_request(&r).matched);
+        e.use_tags(&["social-embeds"]);
+        assert!(!e.check_network_request(&r).matched, "optimize={optimize}: a different (lower-case) tag must not activate the rule");
+        e.use_tags(&["Social-Embeds"]);
+        assert!(e.tag_exists("Social-Embeds") && e.check_network_request(&r).matched, "optimize={optimize}: the rule's own tag must activate it");
+        assert!(e.check_network_request(&req("https://s.example/ok/w.js")).matched);
+        e.enable_tags(&["OK_Tag", "CSP"]);
+        assert!(!e.check_network_request(&req("https://s.example/ok/w.js")).matched);
+        let d = Request::new("https://c.example/", "https://c.example/", "document").unwrap();
+        assert_eq!(e.get_csp_directives(&d), Some("script-src 'none'".to_string()));
+        e.disable_tags(&["CSP"]);
+        assert_eq!(e.get_csp_directives(&d), None);
+    }
+}
